@@ -89,9 +89,18 @@ def _field_operand(op, i, ty=''):
     return None
 
 
+def ref_kind(j):
+    """which reference table a fact set is compared with: the library's (also its cfg(test) build, which rustc marks as an
+    executable) or the binary's"""
+    k = j.get('_kind')
+    if k:
+        return 'lib' if str(k).startswith('lib') else 'bin'
+    return 'bin' if j.get('is_bin') else 'lib'
+
+
 def inline_crate(j):
     """inline calls to unknown local helpers in every function of a crate's fact JSON (in place)"""
-    kn = known().get('bin' if j.get('is_bin') else 'lib')
+    kn = known().get(ref_kind(j))
     if kn is None:
         return {'inlined': 0, 'dropped': []}
     moved = _alias_moved(j, kn)
@@ -327,7 +336,7 @@ def _alias_moved(j, kn):
     global _PATH_RE
     if _PATH_RE is None:
         _PATH_RE = re.compile(r'[A-Za-z_][A-Za-z0-9_]*(?:::[A-Za-z_][A-Za-z0-9_]*)+')
-    kind = 'bin' if j.get('is_bin') else 'lib'
+    kind = ref_kind(j)
     k_adts = known().get(kind + '_adts') or {}
     names = {f['name'] for f in j['fns'] if f.get('kind') != 'Closure'}
     missing = [n for n in kn if n not in names]
@@ -390,10 +399,10 @@ def _alias_renamed(j, kn):
     unknown = [n for n in names if n not in kn]
     if not missing or not unknown:
         return []
-    ref_sigs = known().get(('bin' if j.get('is_bin') else 'lib') + '_sigs', {})
+    ref_sigs = known().get(ref_kind(j) + '_sigs', {})
     pairs = []
     taken = set()
-    ref_calls = known().get(('bin' if j.get('is_bin') else 'lib') + '_calls', {})
+    ref_calls = known().get(ref_kind(j) + '_calls', {})
 
     def par(n):
         return n.rsplit('::', 1)[0] if '::' in n else ''
@@ -534,7 +543,7 @@ def _alias_fields(j):
     matched by unchanged name first, then by type when the type identifies the field uniquely on both sides.
     Applied to field projections, struct literals and the ADT table; only when the new name is not a field name
     of any other type (the rename is by name)."""
-    ref = known().get(('bin' if j.get('is_bin') else 'lib') + '_adts') or {}
+    ref = known().get(ref_kind(j) + '_adts') or {}
     adts = j.get('adts') or {}
     if not ref or not adts:
         return []
